@@ -517,9 +517,11 @@ pub fn replay(args: &[String]) {
     }
     // the multi-module rendering (same-named classes with other variant tables in another module, reached by inference
     // only): every fifth arm list as a match, every one-arm list as a let and an if-let; the kinds rotate
-    let kind = (if (case_no / 5) % 2 == 0 { 'A' } else { 'B' }, if (case_no / 10) % 2 == 0 { 2u8 } else { 3u8 });
+    // (a replay file names the kind of its case: `"mm": "B3"`)
+    let forced: Option<(char, u8)> = v["mm"].as_str().filter(|m| m.len() == 2).map(|m| (m.as_bytes()[0] as char, m.as_bytes()[1] - b'0'));
+    let kind = forced.unwrap_or((if (case_no / 5) % 2 == 0 { 'A' } else { 'B' }, if (case_no / 10) % 2 == 0 { 2u8 } else { 3u8 }));
     let scrutinee = if kind.0 == 'A' { "s" } else { "AccA.root()" };
-    if case_no % 5 == 0 {
+    if case_no % 5 == 0 || forced.is_some() {
       mm_jobs.push(Job {
         id: 0,
         form: "match",
@@ -529,7 +531,7 @@ pub fn replay(args: &[String]) {
       });
     }
     if arms.len() == 1 {
-      let kind = (if case_no % 2 == 0 { 'A' } else { 'B' }, if (case_no / 2) % 2 == 0 { 2u8 } else { 3u8 });
+      let kind = forced.unwrap_or((if case_no % 2 == 0 { 'A' } else { 'B' }, if (case_no / 2) % 2 == 0 { 2u8 } else { 3u8 }));
       let scrutinee = if kind.0 == 'A' { "s" } else { "AccA.root()" };
       mm_jobs.push(Job { id: 0, form: "let", src: format!("let {} = {scrutinee}; 0", arm_texts[0]), case: v.clone(), mm: Some(kind) });
       mm_jobs.push(Job {
